@@ -21,7 +21,7 @@ SAMPLE_BRANCHES = {
 }
 # branches that return one of the two unperturbed input states (trivial cases)
 TRIVIAL = (2, 3, 7, 8, 111, 121, 133, 135)
-REQUIRED = (["sample:" + v for k, v in SAMPLE_BRANCHES.items() if k != 23]
+REQUIRED = (["sample:" + v for k, v in SAMPLE_BRANCHES.items()]
             + ["guess1", "guess2", "guess3", "guess4", "path1", "path2", "fb-shock", "fb-rarefaction", "brent-error"])
 
 
@@ -262,7 +262,9 @@ def run(ctx):
         "the Newton exit (no sign change found: result = last Newton iterate) is covered by the correspondence and the __float128 search oracle only",
         "the model's Newton loop has a fuel argument (100000) that the C++ while loop does not have; the driver reports if it ever runs out (never observed)",
         "domain hypotheses of the theorems: rho, P > 0, gamma > 1 (the constructor clamps gamma to >= 1.00000001), no vacuum generation; std::isinf tests are false at the reals",
-        "the __float128 reference solver in harness/c11.cpp (written from Toro ch. 4) is a search oracle for violations, not part of the proof; its tolerances scale with 1 + 2/(gamma-1)",
+        "the __float128 reference solver in harness/c11.cpp (written from Toro ch. 4) is a search oracle for violations, not part of the proof; its tolerances scale with 1 + 2/(gamma-1); next to a wave (within 1e-7 of the velocity scale) the sample must lie in the envelope of the reference solution; samples that are numerically vacuum on both sides are accepted whatever the flag",
+        "known finding riemann:star-pressure-underflow (known_findings.txt): exact star pressure below the smallest double (gamma < ~1.1, velocity difference within a few % of the vacuum-generation threshold); the oracle reports it under that key only when the reference p* < 1e-300 min(P_L,P_R)",
+        "the vacuum branches of solve are the definitions of Model/RiemannVacuum.lean (property C05) imported into this model; std::isinf(1/x) is modelled there by the threshold |x| <= 2^-1024",
     ]
     ok = ctx.obligations("CMacVerif.Props.C11", ["drv_c11"])
     drv = vlib.driver("drv_c11")
@@ -288,7 +290,7 @@ def run(ctx):
     ctx.sample({"op": uops[-1], "impl": impl[-1] if impl else None, "model": model[-1] if model else None})
 
     # ---- phase 1: wave speeds of every generated Riemann problem (Float model)
-    nstates = ctx.budget(1200, 12000)
+    nstates = ctx.budget(4000, 30000)
     states = [gen_state_pair(rng) for _ in range(nstates)]
     wops = ["waves " + state_words(st) for st in states]
     rc, out, err = vlib.run_exe(drv, "\n".join(wops) + "\n")
@@ -315,7 +317,11 @@ def run(ctx):
             sops.append("solve %s %d" % (sw, B(x)))
     # out-of-domain extremes: branch coverage of the isinf tests only (no reference oracle)
     for st in [(1.4, 1e-300, 0.0, 1e-10, 1e-300, 0.0, 1e-9), (1.4, 1e-300, 0.0, 1e-10, 1e-300, -1e140, 1e-9),
-               (1.4, 1e-200, 0.0, 1e100, 1e-200, 0.0, 1e90)]:
+               (1.4, 1e-200, 0.0, 1e100, 1e-200, 0.0, 1e90),
+               # infinite fL / fR (line 977): found by a random search over the whole double range
+               (5. / 3., 1.2358923164859805e-245, 0.0, 2.8951684437799885e-87, 2.937818258934973e+186, 0.0, 1.18593546552695e-297),
+               (2.0, 1.1395073381122022e+267, 0.0, 3.1020054114001474e-279, 1.3290860621976024e-81, 0.0, 5.550874646621625e-234),
+               (1.1, 1.4677138285596736e-227, 0.0, 6.189650465758506e-247, 3.0395925428588043e+104, 0.0, 9.71952989936646e-257)]:
         for x in (0.0, 1.0, -1.0):
             sops.append("solvex %s %d" % (state_words(st), B(x)))
     n, impl, model, orc = ctx.correspond("solve", h, drv, sops, cmp=cmp, oracle_key=oracle_key)
@@ -341,7 +347,7 @@ def run(ctx):
                        "mid points, far field, 0, random; plus unit-level ops on constants, fb/fprimeb/gb, guess_P, solve_brent. "
                        "distinct = different op text; non-trivial = the sample is not one of the two unperturbed input states")
     missing = [b for b in REQUIRED if b not in ctx.cov["branch_histogram"]]
-    ctx.cov["branches_never_taken"] = missing + (["sample:" + SAMPLE_BRANCHES[23]] if "sample:" + SAMPLE_BRANCHES[23] not in ctx.cov["branch_histogram"] else [])
+    ctx.cov["branches_never_taken"] = missing
     if missing and ctx.thorough:
         ctx.notes.append("coverage gate: model branches never taken: %s (insufficient evidence, not a violation)" % missing)
 
@@ -374,5 +380,5 @@ MANIFEST = dict(
          "Search oracle on the implementation: independent __float128 reference solver from Toro ch.4 (reference sample, pressure-equation residual, Rankine-Hugoniot, isentropy, invariants, characteristic).",
     note="Trusted: Lean kernel + 3 standard axioms; hand model of ExactRiemannSolver.hpp (lines 81-600, 866-1002) and C05's model of the vacuum samplers; exact-real arithmetic (rounding, libm not modelled; std::isinf false at the reals); "
          "NOT proved: termination/convergence of Newton and Brent in doubles and within the 1e4 budget, accuracy of the Newton exit; the model's Newton loop has a fuel (100000) the C++ loop lacks. "
-         "Two genuine defects of the current code are reported by the oracle (keys riemann:nan-at-vacuum-front, riemann:star-pressure-underflow).",
+         "The oracle found two genuine defects: NaN at the vacuum front (fixed in /repo 52f78a3) and star-pressure underflow for gamma close to 1 (recorded finding riemann:star-pressure-underflow).",
     technique="Lean 4 proof (Mathlib real analysis: rpow, sqrt, IVT) over a generic-arithmetic model + bit-level differential correspondence of its Float instance + __float128 reference solver as violation search")
